@@ -207,6 +207,21 @@ def check(ctx):
             cb_ = Body(fx.fn(cl[1])); cd = D.Dag(cb_)
             cs = [(bb, cc) for (bb, cc) in cb_.calls if (cc.get("resolved") or cc.get("f")) == R.SM + "::cancel_stream"]
             ok = len(cs) == 1 and util.on_every_return_path(cb_, cs[0][0]) and "stream_id" in show(cd.expr(cs[0][1]["args"][1])) and util.plain_forward(cd.expr(cs[0][1]["args"][1]))
+        if not ok and not c["dst"]["p"]:
+            # same moment, other spelling: the cancel sits on the `None` edge of the subscriber's answer (the empty answer is the last thing the subscriber does),
+            # on every path from that edge to a return
+            cs = [bb for (bb, cc) in body.calls if (cc.get("resolved") or cc.get("f")) == R.SM + "::cancel_stream" and
+                  "stream_id" in show(dg.expr(cc["args"][1])) and util.plain_forward(dg.expr(cc["args"][1]))]
+            tests = util.option_test_edges(body, dg, c["dst"]["l"])
+            ok = bool(tests) and bool(cs)
+            for (tb, has_t, empty_t) in tests:
+                if empty_t in cs: continue
+                escapes = [r for r in body.returns if r in body.reach_from(empty_t, avoid=frozenset(cs)) or r == empty_t]
+                if escapes: ok = False
+            # the answer must not reach a return untested
+            if ok:
+                tested = {tb for (tb, _, _) in tests}
+                if any(r in body.reach_from(b, avoid=frozenset(tested)) for r in body.returns): ok = False
         ctx.ob("R09.5", f"{k}|old-stream-cancels-itself-when-exhausted", ok, body.loc(b), "the report-empty callback of the fixed (old events) subscriber cancels exactly this stream, so the old stream ends after the last old event")
     ctx.ob("R09.5", f"{k}|fixed-arm-found", found, f"{body.f['file']}:{body.f['line']}", "the Fixed subscriber arm of consume was identified", nontrivial=False)
     # ------------------------------------------------------------------ R09.6 ids <-> subscribers
@@ -230,8 +245,12 @@ def check(ctx):
         if ok2:
             fi, fp = pair["Fixed"]; di, dp = pair["Dynamic"]
             # the two ids are distinct create_stream_id results; Fixed gets split.0, Dynamic split.1
+            # (which component is the fixed / the dynamic subscriber is enforced by the variants' payload types; tuple or named struct is all the same)
+            def of_split(e):
+                e = strip_casts(e)
+                return e[0] == "field" and strip_casts(e[2])[0] == "call" and strip_casts(e[2])[1].split("::")[-1] == "subscribe_to_separated_old_and_new_events"
             ok2 = norm(fi) != norm(di) and "create_stream_id" in show(fi) and "create_stream_id" in show(di) and \
-                  strip_casts(fp)[0] == "field" and str(strip_casts(fp)[1]) == "0" and strip_casts(dp)[0] == "field" and str(strip_casts(dp)[1]) == "1"
+                  of_split(fp) and of_split(dp) and str(strip_casts(fp)[1]) != str(strip_casts(dp)[1])
         ctx.ob("R09.6", f"{k}|subscribers-stored-under-their-ids", ok2, site, "subscribers[old id] = Fixed(split.0) and subscribers[new id] = Dynamic(split.1) with two distinct ids")
         if ok2:
             r = dg.local(0)
